@@ -569,6 +569,11 @@ class FunctionLocation(Location):
         return False
 
 
+COLLECTION_LIMITS = ['MAX_STRING_LENGTH', 'MAX_COLLECTION_SIZE', 'MAX_VARIABLES', 'MAX_VAR_DEPTH',
+                     'MAX_TP_PROCESS_TIME']
+"""The arguments that limit what a snapshot collects (and how long it may take)."""
+
+
 def build_snapshot_action(tp_id: str, args: Dict[str, str], watches: List[str]) -> Optional[LocationAction]:
     """
     Create an action to create a snapshot.
@@ -583,14 +588,25 @@ def build_snapshot_action(tp_id: str, args: Dict[str, str], watches: List[str]) 
             return None
 
     condition = args[CONDITION] if CONDITION in args else None
-    return LocationAction(tp_id, condition, {
+    config = {
         WATCHES: watches,
         FRAME_TYPE: args.get(FRAME_TYPE, SINGLE_FRAME_TYPE),
         STACK_TYPE: args.get(STACK_TYPE, STACK),
         FIRE_COUNT: args.get(FIRE_COUNT, '1'),
         FIRE_PERIOD: args.get(FIRE_PERIOD, '1000'),
         LOG_MSG: args.get(LOG_MSG, None),
-    }, LocationAction.ActionType.Snapshot)
+    }
+    # the collection limits are arguments of the tracepoint like the others (text, as all arguments): without them in
+    # the action config the collection always runs with the defaults
+    for limit in COLLECTION_LIMITS:
+        if limit in args:
+            try:
+                value = int(args[limit])
+            except (TypeError, ValueError):
+                continue
+            if value >= 0:
+                config[limit] = value
+    return LocationAction(tp_id, condition, config, LocationAction.ActionType.Snapshot)
 
 
 def build_log_action(tp_id: str, args: Dict[str, str]) -> Optional[LocationAction]:
